@@ -927,7 +927,8 @@ def _run(run, rng, thorough, root, known):
         has_tb = "Traceback (most recent call last)" in se
         same = (inproc.startswith("traceback") and has_tb and pr.returncode == 1) or \
                (inproc == f"exit {pr.returncode}" and not has_tb)
-        if cases[j].cmd != "solve":
+        if cases[j].cmd not in ("solve", "mutate", "repair"):
+            # solve / mutate / repair print randomly chosen inputs: only exit status and traceback are compared
             same = same and so[:200] == meta[j]["stdout"][:200]
         run.count(("subprocess", cases[j].key()), True)
         if not same:
